@@ -252,6 +252,17 @@ fn attribute(w: &Arc<World>, only_objs: Option<&[u8]>, ctx: &str, snap: &[rt::Ta
             if w.with(|i| i.panic_case && i.stats.panics_injected > 0 && !i.objs[obj].expect_panicked && i.objs[obj].panic_injected.is_none()) && matches!(h.prop, "C03" | "C06" | "C07" | "C04") {
                 w.note("C15", "healthy-object-stalled-after-panic", Some(obj), h.op, format!("{} {}", h.detail, qdebug));
             }
+            // the last thing that ran on the object was a try_sync closure, and the stuck operation arrived while it was running: it was
+            // never picked up when try_sync let go of the queue (try_sync "never disturbs the queue")
+            if matches!(h.prop, "C03" | "C04") {
+                let after_trysync = w.with(|i| {
+                    let last = i.ops.iter().filter(|a| a.obj == obj && a.end != 0).max_by_key(|a| a.end);
+                    matches!(last, Some(a) if a.kind == Kind::TrySync && !a.busy && a.start < h.inv && h.inv < a.end)
+                });
+                if after_trysync {
+                    w.note("C09", "operation-arriving-during-try_sync-never-ran", Some(obj), h.op, format!("{} {}", h.detail, qdebug));
+                }
+            }
             // the same stuck operation also breaks the promises made about it under other headings
             if let Some(opid) = h.op {
                 let (kind, fut_dropped, accepted) = w.with(|i| (i.ops[opid].kind, i.ops[opid].fut_dropped, i.ops[opid].accepted));
@@ -260,6 +271,15 @@ fn attribute(w: &Arc<World>, only_objs: Option<&[u8]>, ctx: &str, snap: &[rt::Ta
                 }
                 if (h.prop == "C06" || h.prop == "C03") && accepted && matches!(kind, Kind::FutDesync | Kind::After) && fut_dropped && w.with(|i| i.cur_max >= 1) {
                     w.note("C07", "dropped-future-operation-never-completed", Some(obj), h.op, format!("{} {}", h.detail, qdebug));
+                }
+                if h.prop == "C06" {
+                    // the context that ran the suspended operation is a task awaiting a future_sync of this object: that future is
+                    // what has to pick the queue up again when it is woken (and it can never resolve otherwise)
+                    let poller = w.with(|i| i.ops[opid].last_poll_task);
+                    let awaiting_fs = w.with(|i| i.callers.iter().any(|c| c.task == poller && matches!(c.stage, Stage::Awaiting(f) if i.ops[f].kind == Kind::FutSync && i.ops[f].obj == obj)));
+                    if awaiting_fs {
+                        w.note("C08", "awaiting-future_sync-did-not-resume-the-queue", Some(obj), h.op, format!("{} {}", h.detail, qdebug));
+                    }
                 }
                 if h.prop == "C06" && kind == Kind::FutSync {
                     w.note("C08", "future_sync-operation-never-resumed", Some(obj), h.op, format!("{} {}", h.detail, qdebug));
